@@ -130,7 +130,49 @@ mutual
         have e1 : target = tf.name := by simpa using hf
         subst e1
         exact .skip hrest
-      | viaMethod _ _ _ _ _ _ _ _ => unfold checkFieldU at h; cases h.1
+      | viaMethod target path derefs guarded call resIsPtr cv zero =>
+        have hf := h.1
+        cases call with
+        | call callee args retErr w =>
+          cases callee with
+          | structMethod n =>
+            unfold checkFieldU at hf
+            simp only [Bool.and_eq_true] at hf
+            obtain ⟨⟨⟨ht, hre⟩, hargs⟩, hw⟩ := hf
+            have e1 : target = tf.name := by simpa using ht
+            have e2 : retErr = false := by simpa using hre
+            subst e1; subst e2
+            cases hwt : walkTy p.conv.env s path with
+            | none => simp [hwt] at hw
+            | some q =>
+              obtain ⟨t0, ds, g⟩ := q
+              simp only [hwt, Bool.and_eq_true] at hw
+              obtain ⟨⟨⟨hd, hg⟩, hnf⟩, hm⟩ := hw
+              have e3 : derefs = ds ++ [(derefTy p.conv.env t0).2] := by simpa using hd
+              have e4 : guarded = (g || (derefTy p.conv.env t0).2) := by simpa using hg
+              have e5 : fieldTyOf p.conv.env (derefTy p.conv.env t0).1 n = none := by simpa using hnf
+              subst e3; subst e4
+              cases hmr : methodResTy p.conv.env (derefTy p.conv.env t0).1 n with
+              | none => simp [hmr] at hm
+              | some rty =>
+                simp only [hmr, Bool.and_eq_true] at hm
+                obtain ⟨⟨hrp, hsh⟩, hcv⟩ := hm
+                have e6 : resIsPtr = (isPtr p.conv.env rty).isSome := by simpa using hrp
+                exact .viaMethod hwt e5 hmr e6 hargs hsh (checkTyU_sound p cv _ tty hcv) hrest
+          | custom _ => unfold checkFieldU at hf; cases hf
+          | method _ => unfold checkFieldU at hf; cases hf
+        | ident => unfold checkFieldU at hf; cases hf
+        | cast _ => unfold checkFieldU at hf; cases hf
+        | underlying _ _ _ => unfold checkFieldU at hf; cases hf
+        | ptrPtr _ _ => unfold checkFieldU at hf; cases hf
+        | srcPtr _ _ => unfold checkFieldU at hf; cases hf
+        | tgtPtr _ _ => unfold checkFieldU at hf; cases hf
+        | list _ _ _ _ => unfold checkFieldU at hf; cases hf
+        | mapc _ _ _ _ => unfold checkFieldU at hf; cases hf
+        | structc _ _ => unfold checkFieldU at hf; cases hf
+        | enumc _ _ => unfold checkFieldU at hf; cases hf
+        | withCtor _ _ _ => unfold checkFieldU at hf; cases hf
+        | ctorUpdate _ _ _ _ _ => unfold checkFieldU at hf; cases hf
       | mapped target path derefs guarded b cv zero =>
         have hf := h.1
         unfold checkFieldU at hf
